@@ -56,8 +56,10 @@ CLAIMED.update({
             "per-index views computed with numpy indexing", "6/C19"),
 })
 
+CLAIMED["C17"] = ("TLC trace validation of the C17 clause group in Trace_RubiksCube / Trace_SlidingTile: every move stepped by the real code from the all-distinct-sticker cube (n = 2..5; 6-7 thorough) must equal the geometric model's permutation, group laws evaluated by TLC on the logged implementation permutations; sliding puzzle: whole 2x2 space and 3x3 samples injected through a table-driven generator; MC of the group laws (n = 2..5) and of the full 2x2 / 3x3 sliding spaces",
+                  TV, "3x3 sliding space is exhaustive in the MC model and sampled on the implementation side in the quick tier", "6/C17")
+
 PENDING = {
-    "C17": "pending: RubiksCube / SlidingTilePuzzle specifications are being written; will be claimed once their trace modules exist",
 }
 
 
